@@ -212,6 +212,48 @@ func c11Worker(tier Tier) int {
 	for k := range states {
 		stateNames = append(stateNames, k)
 	}
+	// (0) early allocation probe: a function that allocates proportionally to a count makes every
+	// later enumeration step cost hundreds of megabytes; if the probe already shows it, report and
+	// stop here instead of grinding through the rest
+	{
+		probe := NewEnum()
+		debug.SetGCPercent(-1)
+		world.MeasureAlloc = true
+		w := states["mixed"]
+		var counts [][]byte
+		counts = append(counts, []byte{1, 0, 0}, []byte{0xff, 0xff, 0xff}, []byte{1, 0, 0, 0, 0}, pool[9], pool[10], bytes.Repeat([]byte{0xff}, 8))
+		counts = append(counts, wrapResidues()...)
+		for _, cnt := range counts {
+			for _, args := range [][][]byte{{uni.B0, cnt, []byte("F"), {0}, {1}}, {cnt, []byte("F"), {0}, {1}}, {uni.B0, cnt, []byte("F"), {0}, {1}, []byte("F"), {0}, {1}}} {
+				for _, caller := range [][]byte{uni.A0, uni.ESDT} {
+					rcp := uni.A0
+					if !bytes.Equal(caller, uni.A0) {
+						rcp = uni.B0
+					}
+					act := world.Action{Kind: world.ActCall, Caller: caller, Recipient: rcp, Func: vmcommon.BuiltInFunctionMultiESDTNFTTransfer, Args: args, Gas: 1 << 62}
+					_, legs := envs[0].Step(w, act)
+					in := uint64(0)
+					for _, a := range args {
+						in += uint64(len(a))
+					}
+					l := legs[0]
+					limit := uint64(1<<20) + 64*(in+4096)
+					if l.AllocBytes > limit {
+						probe.Fail(P, "allocation", "MultiESDTNFTTransfer:"+sideName(l), fmt.Sprintf("MultiESDTNFTTransfer on %s allocated %d bytes for %d input bytes (bound %d)", argsID(l.Func, args), l.AllocBytes, in, limit), "call", map[string]interface{}{"state": "mixed", "action": ToJSON(act)})
+					}
+					probe.Case("alloc-probe:" + legShape(l))
+				}
+			}
+		}
+		world.MeasureAlloc = false
+		debug.SetGCPercent(400)
+		runtime.GC()
+		if len(probe.Viols) > 0 {
+			return FinishEnum(P, tier, "exploration", start, "early allocation probe only: MultiESDTNFTTransfer with every wrap-around residue and large counts in three layouts; the full enumeration was not run because the probe already shows an allocation proportional to an argument",
+				[]string{"allocation bound: 1 MiB + 64 x (input bytes + 4096)"}, false, map[string]interface{}{"stopped_after_probe": true}, nil, probe)
+		}
+		ws[0].Merge(probe)
+	}
 	// (i) all argument lists of length 0..3 over the 14-item pool
 	var lists [][][]byte
 	var gen func(cur [][]byte, depth int)
